@@ -213,7 +213,7 @@ def clauses_for(c: Ctx, tok: str, arity: int, dt: str = "") -> List[Clause]:  # 
         return [Clause("value", "a || b: concatenation, NULL when an operand is NULL (lengths <= 2)",
                        cstr_pairs(c, sp_concat, (0, 1, 2)))]
     if tok == "nvl":
-        cases = bin_cases(c, sp_nvl, NUM_SIGS + [("Boolean", "Boolean"), ("Date", "Date")])
+        cases = bin_cases(c, sp_nvl, NUM_SIGS + [("Boolean", "Boolean"), ("Date", "Date"), ("Duration", "Duration")])
         cases.append(AC("String x String", [c.S(0), c.S(1)], lambda s: sp_nvl(s[0], s[1])))
         return [Clause("value", "nvl(a, b) = b when a is NULL, else a", cases)]
     if tok in ("+", "-") and arity == 1 or tok in ("abs", "ceil", "floor"):
@@ -456,8 +456,27 @@ def registry_obligations(pv: Prover, c: Ctx) -> Dict[str, Any]:
             report["out_of_scope"].setdefault(reason, []).append(f"{tok}[{dtn}]")
             continue
         if dtn not in ("TimePeriod", "Duration") or tok not in ("=", "<>", "<", "<=", ">", ">="):
-            ob = pv.chk.ob(f"{prov.function(tok, 2, dtn)}::classified", prov.function(tok, 2, dtn), "typed override has a contract")
-            ob.status, ob.detail = core.UNDECIDED, f"typed override ({tok}, {dtn}) has no contract"
+            # an override this file does not know: the generic contract of the operator, on the cases whose leading operand
+            # has the overriding type (the registry is asked with data_type = type of the leading operand, as the callers do)
+            kind = {"TimePeriod": "Time_Period"}.get(dtn, dtn)
+            ars = [a for (t, a) in IN_SCOPE if t == tok]
+            done = False
+            for ar in ars:
+                cls = []
+                for cl in clauses_for(c, tok, ar):
+                    keep = [ac for ac in cl.cases if ac.ops and ac.ops[0].kind == kind]
+                    if keep:
+                        cls.append(Clause(cl.cid, f"[override for {dtn}] " + cl.text, keep, cl.key))
+                if cls:
+                    fnp = RegistryProvider(c)
+                    fnp.function = lambda tok_, ar_, dt_, dtn=dtn: f"{OPS_F}:registry[{tok_}/{ar_}, {dtn}]"   # type: ignore[method-assign]
+                    emit(pv, fnp, tok, ar, "", cls)
+                    done = True
+            if not done:
+                ob = pv.chk.ob(f"{prov.function(tok, 2, dtn)}::classified", prov.function(tok, 2, dtn), "typed override has a contract")
+                ob.status, ob.detail = core.UNDECIDED, f"typed override ({tok}, {dtn}) has no contract"
+            else:
+                report["in_scope"].append(f"{tok}[{dtn}] (generic contract)")
             continue
         report["in_scope"].append(f"{tok}[{dtn}]")
         emit(pv, prov, tok, 2, dtn, clauses_for(c, tok, 2, dtn))
@@ -582,3 +601,121 @@ def helper_obligations(pv: Prover, c: Ctx, prov: VisitorProvider) -> None:
                           lambda s, neg=neg: sp_in(s[0], [SV("atom", c.eng.code(k), False) for k in ("x", "y")], neg)))
     pv.add(f"{fn}::membership", fn, "a in / not_in {constants}: NULL for NULL, else (non-)membership in the listed constants", cases,
            "template::visit_BinOp in constants::membership")
+
+
+# ======================================================================================================================
+# the specification functions agree with spec/vtlref.py wherever vtlref defines the operator (concrete grid, every run)
+# ======================================================================================================================
+def py_of(eng: ElemEngine, v: SV) -> Any:
+    if v.sort == "null" or v.null is True:
+        return None
+    if v.sort == "atom":
+        return eng.text_of(v.v)
+    if v.sort == "str":
+        return v.v.concrete()
+    return v.v
+
+
+def spec_result(eng: ElemEngine, sp: Spec) -> Tuple[str, Any]:
+    if is_sym(sp.unspec) or is_sym(sp.err):
+        return ("symbolic", None)
+    if sp.unspec:
+        return ("unspecified", None)
+    if sp.err:
+        return ("error", sp.errcode)
+    for cond, v in sp.alts:
+        if is_sym(cond):
+            return ("symbolic", None)
+        if cond:
+            return ("value", py_of(eng, v))
+    return ("no-alternative", None)
+
+
+def vtlref_crosscheck(pv: Prover, c: Ctx) -> List[str]:
+    from fractions import Fraction
+    from spec import vtlref as R
+    eng = c.eng
+    bad: List[str] = []
+    ints, nums, bools = [None, 0, 1, -3, 7], [None, Fraction(0), Fraction(3, 2), Fraction(-9, 4), Fraction(4)], [None, True, False]
+    strs = [None, "", " a ", "ab", "B", "b ", "  "]
+
+    def mk(kind: str, i: int, v: Any, chars: bool = False) -> SV:
+        if v is None:
+            return NULL
+        if kind == "String":
+            return SV("str", PF.CStr.lit(v), False) if chars else SV("atom", eng.code(v), False)
+        return c.o(i, kind).concrete(v)
+
+    def same_py(x: Any, y: Any) -> bool:
+        if x is None or y is None:
+            return x is None and y is None
+        if isinstance(x, bool) or isinstance(y, bool):
+            return isinstance(x, bool) and isinstance(y, bool) and x == y
+        if isinstance(x, str) or isinstance(y, str):
+            return x == y
+        fx, fy = Fraction(x), Fraction(y)          # vtlref divides in floating point
+        return abs(fx - fy) <= Fraction(1, 10 ** 12) * max(1, abs(fx), abs(fy))
+
+    def check(label: str, sp: Spec, ref: Callable[[], Any]) -> None:
+        pv.vtlref_n += 1
+        got = spec_result(eng, sp)
+        try:
+            want: Tuple[str, Any] = ("value", ref())
+        except R.RefError as e:
+            want = ("error", str(e))
+        except R.RefUnsupported:
+            want = ("unspecified", None)
+        ok = got[0] == want[0] and (got[0] != "value" or same_py(got[1], want[1])) and (got[0] != "error" or got[1] == want[1])
+        if not ok and len(bad) < 5:
+            bad.append(f"{label}: specification {got} / vtlref {want}")
+    pools = {"Integer": ints, "Number": nums, "Boolean": bools, "String": strs}
+    for op in ("+", "-", "*", "/", "=", "<>", "<", "<=", ">", ">=", "nvl"):
+        for ka, kb in NUM_SIGS:
+            for x, y in itertools.product(pools[ka], pools[kb]):
+                f = {"/": sp_div, "nvl": sp_nvl}.get(op) or (
+                    (lambda a, b, op=op: sp_arith(op, a, b)) if op in "+-*" else (lambda a, b, op=op: sp_cmp(op, a, b)))
+                check(f"{x} {op} {y}", f(mk(ka, 0, x), mk(kb, 1, y)), lambda: R.sc_bin(op, x, y))
+    for op in ("and", "or", "xor"):
+        for x, y in itertools.product(bools, bools):
+            check(f"{x} {op} {y}", sp_bool(op, mk("Boolean", 0, x), mk("Boolean", 1, y)), lambda: R.sc_bin(op, x, y))
+    for op in ("=", "<>", "<", "<=", ">", ">=", "||"):
+        for x, y in itertools.product(strs, strs):
+            f = sp_concat if op == "||" else (lambda a, b, op=op: sp_cmp(op, a, b))
+            check(f"{x!r} {op} {y!r}", f(mk("String", 0, x, True), mk("String", 1, y, True)), lambda: R.sc_bin(op, x, y))
+    for x, y in itertools.product(strs, strs):
+        check(f"nvl({x!r}, {y!r})", sp_nvl(mk("String", 0, x), mk("String", 1, y)), lambda: R.sc_bin("nvl", x, y))
+        check(f"{x!r} = {y!r} (atoms)", sp_cmp("=", mk("String", 0, x), mk("String", 1, y)), lambda: R.sc_bin("=", x, y))
+    for x in bools:
+        check(f"not {x}", sp_not(mk("Boolean", 0, x)), lambda: R.sc_un("not", x))
+    for kind in ("Integer", "Number"):
+        for x in pools[kind]:
+            for op in ("-", "abs", "isnull"):
+                sp = sp_isnull(mk(kind, 0, x)) if op == "isnull" else sp_unary_num(op, mk(kind, 0, x))
+                check(f"{op}({x})", sp, lambda: R.sc_un(op, x))
+    for x in strs:
+        for op, f in (("length", sp_length), ("upper", lambda a: sp_case_map(a, True)), ("lower", lambda a: sp_case_map(a, False)),
+                      ("trim", lambda a: sp_trim(a, True, True))):
+            check(f"{op}({x!r})", f(mk("String", 0, x, True)), lambda: R.sc_un(op, x))
+        if x is not None:
+            for y in ("a", "b", "ab", " "):
+                for z in ("", "x"):
+                    check(f"replace({x!r},{y!r},{z!r})", sp_replace(mk("String", 0, x, True), mk("String", 1, y, True), mk("String", 2, z, True)),
+                          lambda: x.replace(y, z))
+                check(f"instr({x!r},{y!r})", sp_instr_first(mk("String", 0, x, True), mk("String", 1, y, True)), lambda: x.find(y) + 1)
+            for st, ln in itertools.product((1, 2, 3, 4), (0, 1, 2, 5)):
+                check(f"substr({x!r},{st},{ln})", sp_substr(mk("String", 0, x, True), SV("int", st, False), SV("int", ln, False)),
+                      lambda: x[st - 1: st - 1 + ln])
+            check("ltrim", sp_trim(mk("String", 0, x, True), True, False), lambda: x.lstrip(" "))
+            check("rtrim", sp_trim(mk("String", 0, x, True), False, True), lambda: x.rstrip(" "))
+    # in / between / if: the rules of vtlref.ev / cev
+    for x in ints:
+        for neg in (False, True):
+            check(f"{x} in", sp_in(mk("Integer", 0, x), [SV("int", 1, False), SV("int", 7, False)], neg),
+                  lambda: None if x is None else ((x not in [1, 7]) if neg else (x in [1, 7])))
+        for lo, hi in itertools.product(ints, ints):
+            check(f"between({x},{lo},{hi})", sp_between(mk("Integer", 0, x), mk("Integer", 1, lo), mk("Integer", 2, hi)),
+                  lambda: None if x is None or lo is None or hi is None else (lo <= x <= hi))
+    for cnd, t, e in itertools.product(bools, ints[:3], ints[:3]):
+        check(f"if {cnd} then {t} else {e}", sp_if(mk("Boolean", 0, cnd), mk("Integer", 1, t), mk("Integer", 2, e)),
+              lambda: R.cev(("if", ("const", cnd), ("const", t), ("const", e)), {}, {}))
+    return bad
